@@ -225,3 +225,38 @@ def send_init_units():
                                    "ghost('reconnects') == 1 and ghost('dh') <= 1 and ghost('dh_on_open')",
                                    "implies(ghost('dh') == 1, ghost('asked') == (min_bits, pref_bits, max_bits))",
                                    "ghost('connected') == False"]), harness=None)]
+
+
+# ---------------------------------------------------------------------------------------------------- reconnect
+def setup_reconnect(ip, st, fr, case):
+    from contracts import c11_hostkey as H
+    st.ghost.update({'connected': fresh('connected0', 'bool'), 'connects': 0})
+    fr['g_conn0'] = st.ghost['connected']
+    fr['out'] = st.new_obj('<out>', {})
+    fr['s'] = st.new_obj('<sock>', {})
+    party = st.new_obj('<party>', {'encryption': None, 'mac': None, 'compression': None, 'languages': None})
+    fr['kex'] = st.new_obj('<kex>', {'key_algorithms': st.new_list(['ssh-ed25519'], 'str'), 'server': party})
+    fr['gex_alg'] = SHA256
+    mm = ip.method_models
+    for name in ('d', 'v', 'fail', 'warn', 'info'):
+        mm[('<out>', name)] = m_noop
+    mm[('<sock>', 'is_connected')] = H.m_is_connected
+    mm[('<sock>', 'close')] = H.m_close
+    mm[('<sock>', 'connect')] = H.m_connect
+    mm[('<sock>', 'get_banner')] = H.m_get_banner
+    mm[('<sock>', 'send_kexinit')] = m_noop
+    mm[('<sock>', 'read_packet')] = H.m_read_packet
+    return {}
+
+
+def reconnect_stubs():
+    return [Contract('SSH2_Kex.parse', mode='contract', result=lambda ip, st: None, modifies=[], ensures=[], raises={}, may_raise={'struct.error': 'True'},
+                     note='only struct.error can escape SSH2_Kex.parse: proved in C10 (unit SSH2_Kex.parse, raises == {} with may_raise struct.error)'),
+            Contract('traceback:format_exc', mode='contract', result='str', modifies=[], ensures=[])]
+
+
+def reconnect_units():
+    return [Unit(Contract('GEXTest.reconnect', setup=setup_reconnect, raises={},
+                          ensures=["ghost('connects') <= 1",
+                                   "implies(g_conn0, ghost('connects') == 0 and result == True)",
+                                   "implies(result == True, ghost('connected') == True)"]), harness=None)]
